@@ -87,7 +87,7 @@ func c10Alphabet() []c10Item {
 		{"i1", system.Integer(1), "num1", "Integer"},
 		{"i1b", system.Integer(1), "num1", "Integer"},
 		{"i2", system.Integer(2), "num2", "Integer"},
-		{"d1", system.MustParseDecimal("1.0"), "num1", "Decimal"},
+		{"d1", lib.Dec("1.0"), "num1", "Decimal"},
 		{"sa", system.String("a"), "a", "String"},
 		{"cA", lib.NameA(), "nameA", "HumanName"},
 		{"cA2", lib.NameA(), "nameA", "HumanName"},
